@@ -109,16 +109,16 @@ func runC10(c *core.Ctx) {
 	reportTaint(c, e, "R10.sink", func(fn *ssa.Function) bool {
 		return strings.HasSuffix(core.PkgPathOf(fn), "/pwr/genie")
 	})
-	c.Floor("R10.sink", "ReadMessage call sites (non-container)", e.ReadCallSites, 20)
-	c.Floor("R10.sink", "wire objects", len(e.WireObjects), 12)
-	c.Floor("R10.sink", "tainted field loads", len(e.TaintedLoads), 14)
+	c.Floor("R10.sink", "ReadMessage call sites (non-container)", e.ReadCallSites, 10)
+	c.Floor("R10.sink", "wire objects", len(e.WireObjects), 6)
+	c.Floor("R10.sink", "tainted field loads", len(e.TaintedLoads), 7)
 	nsinks := 0
 	for _, s := range e.Sinks {
 		if !s.T.empty() {
 			nsinks++
 		}
 	}
-	c.Floor("R10.sink", "sinks reached by wire-derived values", nsinks, 6)
+	c.Floor("R10.sink", "sinks reached by wire-derived values", nsinks, 3)
 	c.Stats["R10.unresolved_dynamic_calls"] = e.UnresolvedDyn
 	untrustedLenRule(c, "R10.len", "pwr", "SignatureInfo", "Hashes", 1)
 	// a range check against the WRONG container is no check: index-space consistency
